@@ -344,9 +344,22 @@ Definition chk_601 (a o : list (list N)) : bool :=
   if argn 0 0 a =? 6 then match o with [[1]; seen; _] => negb (list_eqb seen PENDING) | _ => false end
   else lists_eqb (model_601 a) o.
 
+(* client role (a[0][3] = 1): connect() sends its request as soon as the SETTINGS are in, so when the
+   peer closes or resets its control stream afterwards, whether the request still got out is a race:
+   only the close code is predicted then *)
+Definition chk_611 (a o : list (list N)) : bool :=
+  let m := model_611 a in
+  if (argn 0 3 a =? 1) && negb (argn 0 0 a =? 3) then
+    match m, o with
+    | [_; mch; _; _], [_; och; _; _] => list_eqb mch och
+    | _, _ => false
+    end
+  else lists_eqb m o.
+
 Definition chk (c : case) : bool :=
   let '(f, a, o) := c in
   if f =? 601 then chk_601 a o
+  else if f =? 611 then chk_611 a o
   else if f =? 671 then chk_671 a o
   else if f =? 621 then chk_621 a o
   else if f =? 631 then chk_631 a o
